@@ -116,8 +116,11 @@ def _sign_unit(args):
                     fails.append(("C01|sign|retry|kused=%s|got=%s" % ("wraps" if rec["kused"] < k0 else "k+1", got),
                                   "sign_with_recid(d=%d, z=%d, first nonce %d gives r or s = 0) on %s raised %s; a valid signature exists (spec: %s)" % (d, z, k0, ck, got, want),
                                   {"curve": ck, "d": d, "z": z, "k": k0, "spec": want, "got": got}))
-            elif got != want:
-                queue.append({"curve": ck, "d": d, "z": z, "r": got[0], "s": got[1]})
+            elif tuple(got[:2]) not in {tuple(x) for x in rec["valid"]} or tuple(got2) not in {tuple(x) for x in rec["valid"]}:
+                if len(fails) < 4:
+                    fails.append(("C01|sign|retry|returned_invalid_signature",
+                                  "sign_with_recid(d=%d, z=%d, first nonce %d gives r or s = 0) on %s returned %s, which does not verify" % (d, z, k0, ck, got),
+                                  {"curve": ck, "d": d, "z": z, "k": k0, "valid": rec["valid"], "got": got}))
     return cnt, classes, fails, queue
 
 
@@ -177,6 +180,10 @@ def _rfc_toy_unit(args):
             fails.append(("C01|sign|default_nonce|toy|%s" % ("got=" + sg if isinstance(sg, str) else "r_s_recid"),
                           "sign_with_recid(d=%d, z=%#x) on %s: RFC 6979 nonce %d gives %s, pycoin %s" % (d, z, ck, k, want, sg),
                           {"curve": ck, "d": d, "z": hex(z), "k": k, "expected": want, "got": sg}))
+        elif ent["tries"] > 0 and not isinstance(sg, str) and tuple(sg[:2]) not in {tuple(x) for x in ent["valid"]}:
+            fails.append(("C01|sign|retry|returned_invalid_signature",
+                          "sign_with_recid(d=%d, z=%#x) on %s with the default nonce %d (r or s = 0) returned %s, which does not verify" % (d, z, ck, k, sg),
+                          {"curve": ck, "d": d, "z": hex(z), "k": k, "got": sg}))
         elif ent["tries"] > 0 and isinstance(sg, str):
             fails.append(("C01|sign|retry|kused=%s|got=%s" % ("wraps" if ent["kused"] < k else "k+1", sg),
                           "sign_with_recid(d=%d, z=%#x) on %s with the default nonce %d (r or s = 0) raised %s" % (d, z, ck, k, sg),
@@ -253,17 +260,29 @@ def _prod_params():
             "secp256r1": (r1._p, r1._a, r1._b, (r1._Gx, r1._Gy), r1._r)}
 
 
-def _validate_traces(ctx, cfg, traces):
-    path = _case_file(traces)
+def _validate_many(ctx, jobs):
+    """jobs: [(cfg, traces)]; the TLC runs go concurrently (each is single-threaded: -workers 1).
+    Returns per job (rejected indices, {index: number of events matched})"""
+    paths = [_case_file(tr) for _, tr in jobs]
     try:
-        r = ctx.tlc("Trace_ECDSA", cfg, workers=1, env={"TRACE_FILE": path}, count=False, timeout=2400)
+        rs = tlc_many(ctx, [dict(module="Trace_ECDSA", cfg=cfg, workers=1, env={"TRACE_FILE": p}, count=False, timeout=3000)
+                            for (cfg, _), p in zip(jobs, paths)], threads=6)
     finally:
-        os.unlink(path)
-    rej = [x for x in r.records if x.get("k") == "rejected"]
-    if len(rej) != 1 or rej[0]["n"] != len(traces):
-        raise MachineryError("trace run gave no verdict: %s" % r.raw_tail[-5:])
-    _validate_traces.matched = _MATCHED = {i: m for i, m in enumerate(rej[0]["matched"]) if m >= 0}
-    return sorted(i - 1 for i in rej[0]["ids"])
+        for p in paths:
+            os.unlink(p)
+    out = []
+    for (cfg, tr), r in zip(jobs, rs):
+        rej = [x for x in r.records if x.get("k") == "rejected"]
+        if len(rej) != 1 or rej[0]["n"] != len(tr):
+            raise MachineryError("trace run %s gave no verdict: %s" % (cfg, r.raw_tail[-5:]))
+        out.append((sorted(i - 1 for i in rej[0]["ids"]), {i: m for i, m in enumerate(rej[0]["matched"]) if m >= 0}))
+    return out
+
+
+def _validate_traces(ctx, cfg, traces):
+    (rej, matched), = _validate_many(ctx, [(cfg, traces)])
+    _validate_traces.matched = matched
+    return rej
 
 
 def run(ctx):
@@ -344,7 +363,7 @@ def run(ctx):
     # ---- 2. model
     if _only(ctx, "model"):
         cfgs = ["p11", "p23_q", "p43_q", "p83_q"] if q else ["p11", "p23", "p43", "p67", "p79", "p83", "p103"]
-        tlc_many(ctx, [dict(module="MC_ECDSA", cfg="MC_ECDSA_" + c, workers=4 if q else 8, timeout=3000) for c in cfgs], threads=4 if q else 2)
+        tlc_many(ctx, [dict(module="MC_ECDSA", cfg="MC_ECDSA_" + c, workers=4, timeout=3000) for c in cfgs], threads=4)
 
     # ---- 3. tables
     need_tab = any(_only(ctx, s) for s in ("tables", "rfc", "selftest"))
@@ -656,6 +675,11 @@ def _record_toy_traces(ck, seed, count, nev):
     return traces
 
 
+def _rec_toy(args):
+    ck, seed, count, nev = args
+    return ck, _record_toy_traces(ck, seed, count, nev)
+
+
 def _record_prod_traces(params, seed, count, nev):
     from pycoin.ecdsa.rfc6979 import deterministic_generate_k
     rnd = random.Random(seed)
@@ -707,9 +731,11 @@ def _traces(ctx, params, queue):
     q = ctx.quick
     plan = [("p251a", 60, 12), ("p251b", 60, 12)] if q else [("p251a", 600, 12), ("p251b", 600, 12), ("p1019", 150, 12)]
     first = None
-    for ck, cnt, nev in plan:
-        traces = _record_toy_traces(ck, ctx.seed * 7919 + cnt + len(ck), cnt, nev)
-        rej = _validate_traces(ctx, "Trace_ECDSA_" + ck, _strip(traces))
+    recorded = pmap(_rec_toy, [(ck, ctx.seed * 7919 + cnt + len(ck) + 1000 * part, min(200, cnt - 200 * part), nev)
+                               for ck, cnt, nev in plan for part in range((cnt + 199) // 200)], chunk=1)
+    verdicts = _validate_many(ctx, [("Trace_ECDSA_" + ck, _strip(tr)) for ck, tr in recorded])
+    for (ck, traces), (rej, matched) in zip(recorded, verdicts):
+        _validate_traces.matched = matched
         ctx.traces += len(traces) - len(rej)
         nevs = sum(len(t) for t in traces)
         ctx.case(None, nevs)
@@ -742,11 +768,6 @@ def _traces(ctx, params, queue):
             ctx.fail(key, "recorded run on curve %s is not a behaviour of ECDSA.tla/RFC6979.tla; event %d is the first TLC cannot match: %s" % (
                 ck, m, {k: v for k, v in last.items() if k != "oracle"}), {"curve": ck, "event_index": m, "trace": _strip([traces[i]])[0]})
         ctx.log("traces %s: %d recorded (%d events), %d rejected by TLC" % (ck, len(traces), nevs, len(rej)))
-    # signatures returned on the retry path that differ from the spec's choice must still verify (normally none)
-    if queue:
-        ctx.log("%d retry-path signatures differ from the spec's retry nonce: validating them with TLC" % len(queue))
-        for ck in sorted({x["curve"] for x in queue}):
-            raise MachineryError("retry-path signature differs from k+1: %s (extend Trace_ECDSA cfg for curve %s)" % (queue[0], ck))
     # production curves
     cnt, nev = (16, 6) if q else (160, 8)
     traces, meta = _record_prod_traces(params, ctx.seed * 104729 + 3, cnt, nev)
@@ -791,3 +812,45 @@ def _traces(ctx, params, queue):
             badp[1]["h1"][-1] ^= 1
         rej = _validate_traces(ctx, "Trace_ECDSA_prod", [gp[0], badp])
         ctx.selftest("trace_rejects_corrupted_field", ok_toy and rej == [1])
+
+
+# ----------------------------------------------------------------------------- single-case replay
+
+def replay(ctx, obj):
+    """./check C01 --replay FILE: re-execute the recorded failing case on the current tree (toy-curve cases).
+    The expected value is the one TLC printed when the case was recorded."""
+    d = obj.get("detail") or {}
+    print(json.dumps({k: v for k, v in obj.items() if k != "detail"}, indent=1))
+    ck = d.get("curve")
+    if ck in CURVES:
+        g = _gen(ck)
+        p = CURVES[ck][0]
+        if "Q" in d and "expected" in d and "r" in d:
+            got = drv.call(lambda: g.verify(tuple(d["Q"]), d["z"], (d["r"], d["s"])))
+            print("verify re-executed: expected %s, now %s" % (d["expected"], got))
+            if got is not d["expected"]:
+                ctx.fail(obj["key"], obj["what"], d)
+            return
+        if "k" in d and "d" in d and isinstance(d.get("z"), int):
+            k0 = d["k"]
+            got = drv.call(lambda: g.sign_with_recid(d["d"], d["z"], lambda order, se, val: k0))
+            want = d.get("expected", d.get("spec"))
+            print("sign_with_recid re-executed: spec %s, now %s" % (want, got))
+            if isinstance(got, str) or ("expected" in d and list(got) != list(want)):
+                ctx.fail(obj["key"], obj["what"], d)
+            return
+        if "must" in d:
+            got = drv.call(lambda: g.possible_public_pairs_for_signature(d["z"], (d["r"], d["s"]), d["parity"]))
+            gs = got if isinstance(got, str) else sorted(tuple(x) for x in drv.pts(got, p))
+            print("recover re-executed: must include %s, may only contain %s, now %s" % (d["must"], d["may"], gs))
+            if isinstance(got, str) or not {tuple(x) for x in d["must"]} <= set(gs) or not set(gs) <= {tuple(x) for x in d["may"]}:
+                ctx.fail(obj["key"], obj["what"], d)
+            return
+        if "trace" in d:
+            rej = _validate_traces(ctx, "Trace_ECDSA_" + ck, [d["trace"]])
+            print("the recorded trace is %s by Trace_ECDSA (this validates the stored log, it does not re-run pycoin)" % ("rejected" if rej else "accepted"))
+            if rej:
+                ctx.fail(obj["key"], obj["what"], d)
+            return
+    print(json.dumps(d, indent=1)[:4000])
+    print("(no single-case replayer for this record kind; the record above is the failing case)")
